@@ -95,21 +95,12 @@ theorem gen_hp_parse_empty (grow : Nat → Nat → Nat) (fuel : Nat) (s : Gen.ha
     simp [Slice.cap]
   unfold blockN at h
   unfold hashParser_Parse
-  -- shape-independent in the spelling of the clamp (`n > BlockSize` or `n >= BlockSize`): both facts are given to simp
-  by_cases hgt : (Int.ofNat s.hashDictionary.ParserBuffer.Data.len) - s.hashDictionary.ParserBuffer.W > s.HPConfig.BlockSize
-  · have hB : s.HPConfig.BlockSize = 0 := by simpa only [hgt, if_true] using h
-    have hge : (Int.ofNat s.hashDictionary.ParserBuffer.Data.len) - s.hashDictionary.ParserBuffer.W ≥ s.HPConfig.BlockSize := by
-      omega
-    simp only [hgt, hge, if_true, if_false, hs, bind_ok, resetBlk]
-    simp only [hB, if_true]
-  · have hL : (Int.ofNat s.hashDictionary.ParserBuffer.Data.len) - s.hashDictionary.ParserBuffer.W = 0 := by
-      simpa only [hgt, if_false] using h
-    by_cases hge : (Int.ofNat s.hashDictionary.ParserBuffer.Data.len) - s.hashDictionary.ParserBuffer.W ≥ s.HPConfig.BlockSize
-    · have hB : s.HPConfig.BlockSize = 0 := by omega
-      simp only [hgt, hge, if_true, if_false, hs, bind_ok, resetBlk]
-      simp only [hB, hL, if_true]
-    · simp only [hgt, hge, if_true, if_false, hs, bind_ok, resetBlk]
-      simp only [hL, if_true]
+  simp only [if_false, hs, bind_ok, ite_lt_min, ite_le_min] at h ⊢
+  -- whatever the spelling of the clamp and of the test `n == 0`
+  split
+  all_goals first
+    | rfl
+    | (exfalso; int_omega)
 
 
 /-! ## the whole `Parse` -/
@@ -195,23 +186,15 @@ theorem gen_hp_parse (grow : Nat → Nat → Nat) (fuel : Nat) (s : Gen.hashPars
     show Min.min (s.hashDictionary.ParserBuffer.Data.data.length - _) s.hashDictionary.ParserBuffer.BufConfig.BlockSize.toNat = _
     rw [hdl, cbs]
     rfl
-  have hnG : (if (Int.ofNat s.hashDictionary.ParserBuffer.Data.len) - s.hashDictionary.ParserBuffer.W > s.HPConfig.BlockSize
-      then s.HPConfig.BlockSize
-      else (Int.ofNat s.hashDictionary.ParserBuffer.Data.len) - s.hashDictionary.ParserBuffer.W) =
+  -- the clamp `n = min (len(s.Data) - s.W) s.BlockSize`, with the operands in either order
+  have hnG : Min.min ((Int.ofNat s.hashDictionary.ParserBuffer.Data.len) - s.hashDictionary.ParserBuffer.W) s.HPConfig.BlockSize =
       (((ofHPs s).blockN : Nat) : Int) := by
-    rw [hbN]
-    show (if (s.hashDictionary.ParserBuffer.Data.len : Int) - _ > _ then _ else (s.hashDictionary.ParserBuffer.Data.len : Int) - _) = _
-    split <;> omega
-  -- the same clamp spelled `n >= s.BlockSize` (a harmless rewrite of the Go text)
-  have hnG' : (if (Int.ofNat s.hashDictionary.ParserBuffer.Data.len) - s.hashDictionary.ParserBuffer.W ≥ s.HPConfig.BlockSize
-      then s.HPConfig.BlockSize
-      else (Int.ofNat s.hashDictionary.ParserBuffer.Data.len) - s.hashDictionary.ParserBuffer.W) =
+    rw [hbN]; int_omega
+  have hnG' : Min.min s.HPConfig.BlockSize ((Int.ofNat s.hashDictionary.ParserBuffer.Data.len) - s.hashDictionary.ParserBuffer.W) =
       (((ofHPs s).blockN : Nat) : Int) := by
-    rw [hbN]
-    show (if (s.hashDictionary.ParserBuffer.Data.len : Int) - _ ≥ _ then _ else (s.hashDictionary.ParserBuffer.Data.len : Int) - _) = _
-    split <;> omega
+    rw [hbN]; int_omega
   by_cases hn : (ofHPs s).blockN = 0
-  · have hg : blockN s = 0 := by unfold blockN; rw [hnG, hn]; rfl
+  · have hg : blockN s = 0 := by unfold blockN; rw [ite_lt_min, hnG', hn]; rfl
     rw [gen_hp_parse_empty grow fuel s blk flags hg]
     unfold ProbeW.parseW
     simp only [hn, if_true]
@@ -238,6 +221,7 @@ theorem gen_hp_parse (grow : Nat → Nat → Nat) (fuel : Nat) (s : Gen.hashPars
   generalize hG : hashParser_Parse grow fuel s blk flags = G
   unfold hashParser_Parse at hG
   simp only [if_false] at hG
+  simp only [ite_lt_min, ite_le_min, ite_lt_max, ite_le_max] at hG
   simp only [hnG, hnG'] at hG
   rw [hs0, bind_ok, if_neg (by omega)] at hG
   cases hp1 : ProbeW.processSegment1W (ofHash s.hashDictionary.hash) s.hashDictionary.ParserBuffer.Data.data
@@ -289,71 +273,71 @@ theorem gen_hp_parse (grow : Nat → Nat → Nat) (fuel : Nat) (s : Gen.hashPars
     rw [hiln] at hG
     have hc0 : TCtx s.hashDictionary.hash.mask s.hashDictionary.hash.shift s.hashDictionary.hash.inputLen
         { arr := A, len := 0 } → True := fun _ => trivial
-    -- the margin reslice `_p := s.Data[:inputEnd+7]`
+    -- the margin reslice `_p := s.Data[:inputEnd+7]`; `eI` = the Go value of `inputEnd`
     have hrm : ∀ il : Nat, ProbeW.resliceMargin (List.take (Wn + nN) A) (List.drop (Wn + nN) A) il =
         if ((Wn + nN : Nat) : Int) - (il : Int) + 1 + 7 < 0 ∨ (A.length : Int) < ((Wn + nN : Nat) : Int) - (il : Int) + 1 + 7
         then none else some () := by
       intro il; unfold ProbeW.resliceMargin
       rw [List.take_append_drop, hpl]
     rw [hrm]
-    by_cases hmar : ((Wn + nN : Nat) : Int) - (iln : Int) + 1 + 7 < 0 ∨
-        (A.length : Int) < ((Wn + nN : Nat) : Int) - (iln : Int) + 1 + 7
+    obtain ⟨eI, heI⟩ : ∃ eI : Int, eI = ((Wn + nN : Nat) : Int) - (iln : Int) + 1 := ⟨_, rfl⟩
+    rw [← heI]
+    by_cases hmar : eI + 7 < 0 ∨ (A.length : Int) < eI + 7
     · rw [if_pos hmar]
-      rw [slice_panic _ _ _ (by
-        rw [hA]; show _ ∨ ((Wn + nN : Nat) : Int) - _ + 1 + 7 < 0 ∨ (A.length : Int) < ((Wn + nN : Nat) : Int) - _ + 1 + 7
-        omega)] at hG
+      rw [slice_panic _ _ _ (by rw [hA]; int_omega)] at hG
       exact hG.symm
     rw [if_neg hmar, Option.bind_some]
-    have hcapE : ((Int.ofNat (Wn + nN) - (iln : Int) + 1 + 7).toNat) ≤ s.hashDictionary.ParserBuffer.Data.arr.length := by
-      rw [hA]; show (((Wn + nN : Nat) : Int) - _ + 1 + 7).toNat ≤ _; omega
-    rw [slice_okI s.hashDictionary.ParserBuffer.Data 0 (Int.ofNat (Wn + nN) - (iln : Int) + 1 + 7) 0
-      ((Int.ofNat (Wn + nN) - (iln : Int) + 1 + 7).toNat) rfl
-      (by show ((Wn + nN : Nat) : Int) - _ + 1 + 7 = (((((Wn + nN : Nat) : Int) - _ + 1 + 7).toNat : Nat) : Int); omega)
-      (Nat.zero_le _) hcapE, bind_ok] at hG
+    rw [slice_okI s.hashDictionary.ParserBuffer.Data 0 _ 0 (eI + 7).toNat rfl (by int_omega)
+      (Nat.zero_le _) (by rw [hA]; omega), bind_ok] at hG
     simp only [List.drop_zero, Nat.sub_zero] at hG
     rw [hA] at hG
-    -- the greedy loop
+    -- the greedy loop: the Go arguments `inputEnd`, `minMatchLen`, `len(_p)` are taken from the unfolded text and only
+    -- have to EQUAL the model's values (side goals of the rewrite below, decided by omega in whatever spelling)
     have hloop : ∃ (st' : LoopSt HashT) (t' : GSlice hashEntry) (blk' : Block'),
         ProbeW.greedyLoopW (ProbeW.hpProbeW s.HPConfig.WindowSize.toNat (Min.min 3 iln) (Wn + nN + 1 - iln) false
             (A.drop (Wn + nN))) (A.take (Wn + nN)) (Wn + nN + 1 - iln)
           { dict := ofHashT s.hashDictionary.hash t0, i := Wn, litIndex := Wn, seqs := [], lits := [] } = some st' ∧
-        hashParser_Parse_loop_1 grow (Int.ofNat (Wn + nN) - (iln : Int) + 1)
-          { arr := A, len := (Int.ofNat (Wn + nN) - (iln : Int) + 1 + 7).toNat } { arr := A, len := Wn + nN }
-          (if (iln : Int) < 3 then (iln : Int) else 3) fuel (Wn : Int)
-          { hashDictionary := setD s.hashDictionary t0, HPConfig := s.HPConfig }
-          { Sequences := [], Literals := { arr := blk.Literals.arr, len := 0 } } (Wn : Int) =
-          Res.ok ((st'.i : Int), setT { hashDictionary := setD s.hashDictionary t0, HPConfig := s.HPConfig } t', blk',
-            (st'.litIndex : Int)) ∧
+        (∀ (ie mm : Int) (lp : Nat), ie = eI → mm = ((Min.min 3 iln : Nat) : Int) → lp = (eI + 7).toNat →
+          hashParser_Parse_loop_1 grow ie { arr := A, len := lp } { arr := A, len := Wn + nN } mm fuel (Wn : Int)
+            { hashDictionary := setD s.hashDictionary t0, HPConfig := s.HPConfig }
+            { Sequences := [], Literals := { arr := blk.Literals.arr, len := 0 } } (Wn : Int) =
+            Res.ok ((st'.i : Int), setT { hashDictionary := setD s.hashDictionary t0, HPConfig := s.HPConfig } t', blk',
+              (st'.litIndex : Int))) ∧
         TOK s.hashDictionary.hash.shift t' ∧ st'.dict = ofHashT s.hashDictionary.hash t' ∧
         blk'.Sequences = st'.seqs.map seqRep ∧ blk'.Literals.data = st'.lits ∧ SWF blk'.Literals ∧
         Wn ≤ st'.litIndex ∧ st'.litIndex ≤ Wn + nN := by
-      have hmmI : (if (iln : Int) < 3 then (iln : Int) else 3) = ((Min.min 3 iln : Nat) : Int) := by
-        split <;> omega
-      by_cases h0 : (Wn : Int) < Int.ofNat (Wn + nN) - (iln : Int) + 1
-      · have h0' : (Wn : Int) < ((Wn + nN : Nat) : Int) - (iln : Int) + 1 := h0
-        have hEI : Int.ofNat (Wn + nN) - (iln : Int) + 1 = ((Wn + nN + 1 - iln : Nat) : Int) := by
-          show ((Wn + nN : Nat) : Int) - _ + 1 = _; omega
-        have hE7 : (Int.ofNat (Wn + nN) - (iln : Int) + 1 + 7).toNat = Wn + nN + 1 - iln + 7 := by
-          rw [hEI]; omega
+      by_cases h0 : (Wn : Int) < eI
+      · have hEI : eI = ((Wn + nN + 1 - iln : Nat) : Int) := by omega
+        have hE7 : (eI + 7).toNat = Wn + nN + 1 - iln + 7 := by omega
+        obtain ⟨st', t', blk', h1, h2, h3⟩ :=
+          loop1_eq grow eI ((Min.min 3 iln : Nat) : Int) A (Wn + nN) (Wn + nN + 1 - iln) (Min.min 3 iln)
+            s.HPConfig.WindowSize.toNat hEI rfl
+            (by omega) (by omega) (by omega) (by omega) (by omega)
+            (Wn + nN + 1 - iln - Wn) fuel Wn Wn (Wn : Int) (Wn : Int)
+            { hashDictionary := setD s.hashDictionary t0, HPConfig := s.HPConfig }
+            { Sequences := [], Literals := { arr := blk.Literals.arr, len := 0 } } [] []
+            (by omega) (by omega) (Nat.le_refl _) rfl rfl (by omega)
+            ⟨by show Wn + nN + 1 - iln + 7 ≤ A.length; omega, hmask, hsh, hsh2,
+              by show Wn + nN + 1 - iln + 7 < _; omega⟩
+            ht0 rfl rfl rfl (Nat.zero_le _)
+        refine ⟨st', t', blk', h1, ?_, h3⟩
+        intro ie mm lp hie hmm hlp
+        subst hie hmm hlp
         rw [hE7]
-        have hmar' : ¬ ((A.length : Int) < ((Wn + nN : Nat) : Int) - (iln : Int) + 1 + 7) := fun hc => hmar (Or.inr hc)
-        exact loop1_eq grow _ _ A (Wn + nN) (Wn + nN + 1 - iln) (Min.min 3 iln) s.HPConfig.WindowSize.toNat hEI hmmI
-          (by omega) (by omega) (by omega) (by omega) (by omega)
-          (Wn + nN + 1 - iln - Wn) fuel Wn Wn (Wn : Int) (Wn : Int)
-          { hashDictionary := setD s.hashDictionary t0, HPConfig := s.HPConfig }
-          { Sequences := [], Literals := { arr := blk.Literals.arr, len := 0 } } [] []
-          (by omega) (by omega) (Nat.le_refl _) rfl rfl (by omega)
-          ⟨by show Wn + nN + 1 - iln + 7 ≤ A.length; omega, hmask, hsh, hsh2,
-            by show Wn + nN + 1 - iln + 7 < _; omega⟩
-          ht0 rfl rfl rfl (Nat.zero_le _)
-      · have h0' : ¬ (Wn : Int) < ((Wn + nN : Nat) : Int) - (iln : Int) + 1 := h0
-        obtain ⟨f, rfl⟩ : ∃ f, fuel = f + 1 := ⟨fuel - 1, by omega⟩
+        exact h2
+      · obtain ⟨f, rfl⟩ : ∃ f, fuel = f + 1 := ⟨fuel - 1, by omega⟩
         refine ⟨_, t0, { Sequences := [], Literals := { arr := blk.Literals.arr, len := 0 } },
           ProbeW.greedyLoopW_done _ _ _ _ (by show ¬ Wn < Wn + nN + 1 - iln; omega), ?_, ht0, rfl, rfl,
           rfl, Nat.zero_le _, Nat.le_refl _, by show Wn ≤ Wn + nN; omega⟩
-        rw [hashParser_Parse_loop_1, if_neg h0]
+        intro ie mm lp hie hmm hlp
+        subst hie hmm hlp
+        rw [hashParser_Parse_loop_1]
+        split
+        all_goals first
+          | (exfalso; omega)
+          | rfl
     obtain ⟨st', t', blk', hgl, hl1, ht', hdict', hseq', hlit', hswf', hli1, hli2⟩ := hloop
-    rw [hl1, bind_ok] at hG
+    rw [hl1 _ _ _ (by int_omega) (by int_omega) rfl, bind_ok] at hG
     dsimp only at hG
     unfold ProbeW.runGreedyW
     simp only [Option.bind_eq_bind, Option.pure_def]
@@ -365,42 +349,45 @@ theorem gen_hp_parse (grow : Nat → Nat → Nat) (fuel : Nat) (s : Gen.hashPars
         cws, cbs, cil, hbs0,
         by show (w' : Int) ≤ ((s.hashDictionary.ParserBuffer.Data.len : Nat) : Int); omega, hil1, hsh, hsmall⟩
     have hslen : blk'.Sequences.length = st'.seqs.length := by rw [hseq', List.length_map]
+    -- the two atoms of the NoTrailingLiterals test, as arithmetic facts for omega (any spelling, either arm order)
+    have hfl1 : iand flags 1 ≠ 0 ↔ flags.toNat % 2 = 1 := iand_one flags hfl
+    have hne : st'.seqs ≠ [] ↔ st'.seqs.length ≠ 0 :=
+      ⟨fun h hc => h (List.eq_nil_of_length_eq_zero hc), fun h hc => h (by rw [hc]; rfl)⟩
     unfold finishBlock
     by_cases hfin : flags.toNat % 2 = 1 ∧ st'.seqs ≠ []
     · rw [if_pos hfin]
-      have hne : st'.seqs.length ≠ 0 := fun hc => hfin.2 (List.eq_nil_of_length_eq_zero hc)
-      rw [if_pos ⟨(iand_one flags hfl).mpr hfin.1, by show (blk'.Sequences.length : Int) > 0; omega⟩, bind_ok] at hG
-      dsimp only at hG
-      refine ⟨withWT s (st'.litIndex : Int) t', blk', hG.symm.trans ?_, ?_, rfl, Or.inl rfl, hseq', hlit', hswf', hPt _ hli2⟩
-      · rw [hWn]
-        have : ((st'.litIndex : Nat) : Int) - (Wn : Int) = ((st'.litIndex - Wn : Nat) : Int) := by omega
-        rw [this]; rfl
-      · rw [hdict']; rfl
+      have hfin2 := hne.mp hfin.2
+      have hfin1 := hfin.1
+      split at hG
+      all_goals first
+        | (exfalso; int_omega)
+        | (simp only [bind_ok] at hG
+           refine ⟨withWT s (st'.litIndex : Int) t', blk', hG.symm.trans ?_, ?_, rfl, Or.inl rfl, hseq', hlit', hswf', hPt _ hli2⟩
+           · rw [hWn]
+             have : ((st'.litIndex : Nat) : Int) - (Wn : Int) = ((st'.litIndex - Wn : Nat) : Int) := by omega
+             rw [this]; rfl
+           · rw [hdict']; rfl)
     · rw [if_neg hfin]
-      have hcond : ¬ (iand flags 1 ≠ 0 ∧ Int.ofNat blk'.Sequences.length > 0) := by
-        intro ⟨h1, h2⟩
-        apply hfin
-        refine ⟨(iand_one flags hfl).mp h1, ?_⟩
-        intro hc
-        have h2' : (blk'.Sequences.length : Int) > 0 := h2
-        rw [hslen, hc] at h2'
-        exact absurd h2' (by decide)
-      rw [if_neg hcond, slice_okI _ _ (Int.ofNat (Wn + nN)) st'.litIndex (Wn + nN) rfl rfl hli2
-        (by show Wn + nN ≤ A.length; omega), bind_ok, bind_ok] at hG
-      dsimp only at hG
-      refine ⟨withWT s ((Wn + nN : Nat) : Int) t',
-        { Sequences := blk'.Sequences,
-          Literals := Slice.append grow blk'.Literals ((A.drop st'.litIndex).take (Wn + nN - st'.litIndex)) },
-        hG.symm.trans ?_, ?_, rfl, Or.inl rfl, hseq', ?_,
-        swf_append grow _ hswf' _, hPt _ (Nat.le_refl _)⟩
-      · rw [hWn, hpl]
-        have : Int.ofNat (Wn + nN) - (Wn : Int) = ((Wn + nN - Wn : Nat) : Int) := by
-          show ((Wn + nN : Nat) : Int) - _ = _; omega
-        rw [this]; rfl
-      · rw [hdict', hpl]; rfl
-      · rw [(append_spec grow blk'.Literals hswf' _).1, hlit']
-        show _ ++ (A.drop st'.litIndex).take (Wn + nN - st'.litIndex) = _ ++ (A.take (Wn + nN)).drop st'.litIndex
-        rw [List.drop_take]
+      have hfin' : ¬ (flags.toNat % 2 = 1 ∧ st'.seqs.length ≠ 0) := fun h => hfin ⟨h.1, hne.mpr h.2⟩
+      split at hG
+      all_goals first
+        | (exfalso; int_omega)
+        | (rw [slice_okI _ _ (Int.ofNat (Wn + nN)) st'.litIndex (Wn + nN) rfl rfl hli2
+             (by show Wn + nN ≤ A.length; omega)] at hG
+           simp only [bind_ok] at hG
+           refine ⟨withWT s ((Wn + nN : Nat) : Int) t',
+             { Sequences := blk'.Sequences,
+               Literals := Slice.append grow blk'.Literals ((A.drop st'.litIndex).take (Wn + nN - st'.litIndex)) },
+             hG.symm.trans ?_, ?_, rfl, Or.inl rfl, hseq', ?_,
+             swf_append grow _ hswf' _, hPt _ (Nat.le_refl _)⟩
+           · rw [hWn, hpl]
+             have : Int.ofNat (Wn + nN) - (Wn : Int) = ((Wn + nN - Wn : Nat) : Int) := by
+               show ((Wn + nN : Nat) : Int) - _ = _; omega
+             rw [this]; rfl
+           · rw [hdict', hpl]; rfl
+           · rw [(append_spec grow blk'.Literals hswf' _).1, hlit']
+             show _ ++ (A.drop st'.litIndex).take (Wn + nN - st'.litIndex) = _ ++ (A.take (Wn + nN)).drop st'.litIndex
+             rw [List.drop_take])
 
 /-- **Go text → list-level model.**  For a Go state that abstracts to a state reachable through the API
     (`NewParser`, then any history of `Write`, `ReadFrom`, `Parse`, `Parse(nil)`, `Shrink`, `Reset`), the translated
